@@ -23,6 +23,7 @@ import QlibcModel.Props.C01
 import QlibcModel.Props.C09
 import QlibcModel.Props.C10
 import QlibcModel.Props.C12Mem
+import QlibcModel.Props.C12Map
 
 namespace Qlibc.Props.C12
 open Qlibc Qlibc.Tree Qlibc.Tree.T
